@@ -252,7 +252,10 @@ static Fail run_shared(const Case& c, const std::vector<int>& seq, long long& co
 // members (paths with their own join/end type) pairwise farther than 4*k*|delta| apart; the part of the joint result
 // inside a member's neighbourhood must equal the member's stand-alone result (canonical path sets)
 static double kfactor(int jt, int et, double miter) { double k = jt == 3 ? std::max(miter, 1.4143) : (jt == 2 ? 1.0 : 1.4143); if (et == 3) k = std::max(k, 1.4143); return k; }
-static Fail run_indep(const Case& c, long long& compared) {
+static Fail run_indep(const Case& c0, long long& compared, int64_t fine = 1) {
+  // fine > 1: the same scene on a grid `fine` times finer (coordinates and delta multiplied) - used by the classifier below
+  Case cs; const Case& c = fine == 1 ? c0 : cs;
+  if (fine != 1) { cs = c0; for (auto& p : cs.p64["M"]) for (auto& pt : p) { pt.x *= fine; pt.y *= fine; } cs.setd("delta", c0.getd("delta") * (double)fine); }
   Fail f; const double d = c.getd("delta"), miter = c.getd("miter", 2.0); const int nm = (int)c.geti("nm"); const bool grouped = c.geti("grouped") != 0;
   const int jt = (int)c.geti("jt"), et = (int)c.geti("et");
   std::vector<int> order = parse_seq(c.gets("order"));
@@ -292,7 +295,13 @@ static Fail run_indep(const Case& c, long long& compared) {
         }
         // no sample clear of both bands disagrees: whatever differs lies within 3 units of one of the two boundaries
         (void)judged;
-        f.tags.push_back(differ ? "gross_difference" : "same_region_up_to_rounding"); }
+        if (differ && fine == 1) {
+          // a leaked join/end type or delta does not care about the grid; a mis-filled face of the clean-up union (the boolean
+          // engine on raw outlines that are not in general position: C07's recorded finding) does: repeat on a 257x finer grid
+          long long dummy = 0; Fail ff = run_indep(c0, dummy, 257);
+          bool still = ff.bad && std::find(ff.tags.begin(), ff.tags.end(), std::string("gross_difference")) != ff.tags.end();
+          f.tags.push_back(still ? "gross_difference" : "gross_difference_only_on_this_grid");
+        } else f.tags.push_back(differ ? "gross_difference" : "same_region_up_to_rounding"); }
       f.tags.push_back(c.geti("stack") ? "members_stacked_vertically" : "members_side_by_side");
       f.detail = "member " + std::to_string(m) + " (" + std::to_string(c.P("M")[(size_t)m].size()) + " points) is offset differently in a joint call (order " + c.gets("order") + (grouped ? ", one group" : ", one group each") + ") than alone"; return f; }
   return f;
